@@ -389,6 +389,26 @@ def inline_helpers(functions, inventory, root):
                 x = x['c'][0]
             if x.get('k') in ('CXXMemberCallExpr', 'CallExpr') and x.get('callee') in new:
                 call, mode = x, 'init'
+        if call is None and k == 'IfStmt' and not (s.get('slots') or {}).get('else') and not (s.get('slots') or {}).get('init'):
+            # `if (!h(args)) return false;` where h answers false on its early exits and true only at its very end: the body of h with its last
+            # `return true;` dropped does exactly that
+            c = s['slots'].get('cond')
+            t = s['slots'].get('then')
+            while isinstance(t, dict) and t.get('k') == 'CompoundStmt' and len(t.get('c') or ()) == 1:
+                t = t['c'][0]
+            def lit(r, v):
+                return isinstance(r, dict) and r.get('k') == 'ReturnStmt' and r.get('c') and r['c'][0].get('k') == 'CXXBoolLiteralExpr' and bool(r['c'][0].get('val')) == v
+            if isinstance(c, dict) and c.get('k') == 'UnaryOperator' and c.get('op') == '!' and c.get('c') and c['c'][0].get('k') in ('CXXMemberCallExpr', 'CallExpr') \
+                    and c['c'][0].get('callee') in new and _on_this(c['c'][0]) and lit(t, False):
+                cl = c['c'][0]
+                h = new[cl['callee']]
+                top = list(h['body'].get('c') or ())
+                rets = _returns(h['body'])
+                args = (cl.get('c') or [])[1:]
+                if top and lit(top[-1], True) and all(lit(r, False) for r in rets if r is not top[-1]) and len(args) == len(h.get('params') or ()):
+                    count += 1
+                    pre = {'k': 'CompoundStmt', 'c': top[:-1], 'loc': h['body'].get('loc')}
+                    return [_param_subst(pre, h.get('params') or [], args)]
         if call is None or not _on_this(call):
             return None
         h = new[call['callee']]
